@@ -32,15 +32,21 @@ def plan(tier, seed):
     return sh
 
 
+_counter = [0]
+
+
 def mk_bus(dest_kind, values=None, limits=None):
+    """Target unit at a short address / group that varies from case to case (all 64 / 16 are visited)."""
     from dali import address
     from models.gear102 import Gear
     from models.tc209 import TcUnit
     from models.bus import Bus
+    _counter[0] += 1
+    sa, grp = (_counter[0] * 7) % 64, (_counter[0] * 5) % 16
     kw = {} if limits is None else dict(coolest=limits[0], warmest=limits[1])
-    target = Gear(short=11, groups={3}, device_types=[6, 8], tc=TcUnit(values, **kw), name="target")
-    other = Gear(short=12, groups={4}, device_types=[8], tc=TcUnit(), name="other")
-    dest = {"short": address.GearShort(11), "int": 11, "group": address.GearGroup(3),
+    target = Gear(short=sa, groups={grp}, device_types=[6, 8], tc=TcUnit(values, **kw), name="target")
+    other = Gear(short=(sa + 1) % 64, groups={(grp + 1) % 16}, device_types=[8], tc=TcUnit(), name="other")
+    dest = {"short": address.GearShort(sa), "int": sa, "group": address.GearGroup(grp),
             "broadcast": address.GearBroadcast()}[dest_kind]
     return Bus([target, other], bound=200), target, other, dest
 
